@@ -243,9 +243,11 @@ RECURSIVE InterAll(_, _)
 InterAll(m, i) == IF i > Len(m) THEN {} ELSE IF i = Len(m) THEN SeqSet(m[i]) ELSE SeqSet(m[i]) \cap InterAll(m, i + 1)
 UnionAll(m) == UNION { SeqSet(m[i]) : i \in 1..Len(m) }
 
-(* signature of F11: a network query, and the prefix -> webentity map changed while it ran *)
+(* signature of F11: a query that resolves the webentities of the two ends of links (network, *)
+(* cited, citing), and the prefix -> webentity map changed while it ran                         *)
 Reattributed(b, fin, o1) ==
-  b.qkind = "qnet" /\ { <<fin.we0[j].l, fin.we0[j].id>> : j \in 1..Len(fin.we0) } # WSet(o1)
+  b.qkind \in {"qnet", "qoutlinks", "qinlinks"}
+  /\ { <<fin.we0[j].l, fin.we0[j].id>> : j \in 1..Len(fin.we0) } # WSet(o1)
 
 CoopClauses(st, rm, d, gs, S, post, o0, o1) ==
   IF S.op = "CoopBegin"
@@ -279,9 +281,9 @@ CoopClauses(st, rm, d, gs, S, post, o0, o1) ==
                          /\ b.exc = ""
                          /\ InterAll(b.moments, 1) \subseteq SeqSet(b.result)
                          /\ (SeqSet(b.result) \subseteq UnionAll(b.moments) \/ Reattributed(b, fin, o1))>>,
-      \* known finding F11: the network query resolves sources and targets at different moments, so
-      \* while another request re-attributes pages to new webentities it can report an edge
-      \* between webentities that existed at no single moment
+      \* known finding F11: the network, cited and citing queries resolve the two ends of a link at
+      \* different moments, so while another request re-attributes pages to new webentities they can
+      \* report an edge / a webentity that qualified at no single moment
       <<"C16.bounds.network_reattribution", fin.last => \A j \in 1..Len(fin.bounds) :
                          LET b == fin.bounds[j] IN
                          ~(Reattributed(b, fin, o1) /\ ~(SeqSet(b.result) \subseteq UnionAll(b.moments)))>>
